@@ -13,9 +13,14 @@ import (
 func init() {
 	register("C38", []string{"fileid", "bin"}, func(c *engine.Ctx) {
 		c.Explain("C38: (R1, wrap rule) no arithmetic on a sub-word integer in rleEncode/rleDecode may leave its type range: the zero-run counter is a byte, its increment must be dominated by a saturation guard. (R3) every slice/index expression in DecodeFileID, rleDecode, rleEncode, decodeLatestFileID and PhotoSizeSource.decode is proven in range.")
-		c.NotCover("value equality of encode∘decode (wire-shape agreement of encodeLatestFileID/decodeLatestFileID is not decided); base64")
+		c.Explain("(R2) FileID.encodeLatestFileID and decodeLatestFileID perform the same wire operations in the same order, with the optional file reference and URL optional on both sides.")
+		c.NotCover("value equality of encode∘decode; the flag bits that make the optional fields present; PhotoSizeSource's inner layout; base64")
 		c38R1(c)
 		c38R3(c)
+		// R2 writer/reader agreement of the latest-version layout: the same
+		// primitives in the same order, optional ones optional on both sides
+		n := wirePairs(c, "C38.R2", "fileid", []codecPair{{"FileID", "encodeLatestFileID", "decodeLatestFileID"}})
+		c.Floor("C38.R2", 1, n)
 	})
 }
 
@@ -94,4 +99,43 @@ func c38R3(c *engine.Ctx) {
 		}
 	}
 	c.Floor("C38.R3", 4, sites)
+	// R4: run-length coding changes the length of its input (an isolated zero
+	// byte becomes two bytes), so it cannot work in place: no call in the
+	// package may pass two byte slices that are views of the same array (a
+	// destination like buf[:0] next to the source buf).
+	calls := 0
+	for _, f := range allFunctions(c, c.SSA["fileid"]) {
+		for _, g := range engine.WithAnon(f) {
+			for _, call := range engine.Calls(g) {
+				callee := call.Common().StaticCallee()
+				if callee == nil || callee.Pkg != f.Pkg {
+					continue
+				}
+				bases := map[string]int{}
+				for _, a := range engine.Args(call.Common()) {
+					if s, ok := a.Type().Underlying().(*types.Slice); !ok || !types.Identical(s.Elem(), types.Typ[types.Byte]) {
+						continue
+					}
+					v := engine.Unwrap(a)
+					for {
+						if sl, isSl := v.(*ssa.Slice); isSl {
+							v = engine.Unwrap(sl.X)
+							continue
+						}
+						break
+					}
+					bases[engine.Describe(v)]++
+				}
+				calls++
+				dup := ""
+				for b, k := range bases {
+					if k > 1 {
+						dup = b
+					}
+				}
+				c.Check(dup == "", "C38.R4", engine.FuncID(g)+"/"+engine.Short(engine.CalleeID(call.Common()))+"#"+ordinalCall(g, call)+"/no-overlapping-slices", call.Pos(), "two byte-slice arguments are views of the same array (%s): a length-changing transformation in place overwrites bytes it has not read yet", dup)
+			}
+		}
+	}
+	c.Floor("C38.R4", 3, calls)
 }
